@@ -480,6 +480,65 @@ fn operations_leave_nothing(rep: &Report) {
 /// Process level: when the command-line program ends — normally, with an error, or because its output pipe broke — the
 /// unlocked private key must not be left in its heap. An LD_PRELOAD monitor (harness/rngshim) searches the writable heap
 /// mappings for the raw key at exit() and reports hits. (A process killed by a signal runs no exit handlers: no verdict.)
+/// Blocks RELEASED during an operation: with every secret of the call known (sender private key, supplied ephemeral private
+/// key, supplied payload key; recipient private key for decryption), each block of at most 4 KiB that key_encrypt /
+/// key_decrypt hand back to the allocator is searched for each secret at the moment it is released. A
+/// container that is emptied before it is dropped (so that its wipe covers nothing) releases its buffer with the key inside.
+fn operations_release_nothing(rep: &Report) {
+    use crate::refspec as r;
+    use crate::streams::*;
+    let seed = rep.seed;
+    let ids = idents(seed);
+    let e = derive32(seed, "c20-freed-e");
+    let pay = derive32(seed, "c20-freed-pay");
+    let p = plaintext(seed ^ 0x21, 200);
+    let enc = Subject::KeyEnc { s: hx(&ids[0].sk), s_pub: hx(&ids[0].pk), r_pub: hx(&ids[2].pk), e: hx(&e), payload: hx(&pay) };
+    let mut file: Vec<u8> = Vec::with_capacity(8192);
+    {
+        let mut src = &p[..];
+        let _ = run_rw(&enc, &mut src, &mut file);
+    }
+    let dec = Subject::KeyDec { r: hx(&ids[2].sk), r_pub: hx(&ids[2].pk) };
+    let secrets: Vec<(&str, &str, [u8; 32])> = vec![
+        ("key_encrypt", "the sender's private key", ids[0].sk),
+        ("key_encrypt", "the supplied ephemeral private key", e),
+        ("key_encrypt", "the supplied payload key", pay),
+        ("key_decrypt", "the recipient's private key", ids[2].sk),
+    ];
+    // every container the call needs is built BEFORE the watched region (the harness's own byte vectors must not be what
+    // is found), and dropped after it
+    let s_priv = ids[0].private();
+    let s_pub = ids[0].public();
+    let r_pub = ids[2].public();
+    let r_priv = ids[2].private();
+    let e_priv = PrivateKey::try_from(&e[..]).unwrap();
+    let e_pubk = kestrel_crypto::PublicKey::try_from(&r::x25519_base(&e)[..]).unwrap();
+    let pay_k = PayloadKey::new(&pay);
+    for (op, what, secret) in secrets {
+        rep.eval(1);
+        rep.nontrivial(format!("freed-{}-{}", op, what).as_bytes());
+        let mut sink: Vec<u8> = Vec::with_capacity(8192);
+        let (res, hits, size) = crate::mon::freed_with_secret(&secret, || {
+            if op == "key_encrypt" {
+                let mut src = &p[..];
+                guarded(|| kestrel_crypto::encrypt::key_encrypt(&mut src, &mut sink, &s_priv, &s_pub, &r_pub, Some(&e_priv), Some(&e_pubk), Some(&pay_k), kestrel_crypto::AsymFileFormat::V1).is_ok())
+            } else {
+                let mut src = &file[..];
+                guarded(|| kestrel_crypto::decrypt::key_decrypt(&mut src, &mut sink, &r_priv, &r_pub, kestrel_crypto::AsymFileFormat::V1).is_ok())
+            }
+        });
+        if res != Ok(true) {
+            rep.violation("operations/encrypt-failed", json!({"kind":"operations","op":op}), format!("{:?}", res));
+        } else if hits > 0 {
+            rep.violation("operations/released-with-a-key-inside", json!({"kind":"operations","op":op,"secret":what}), format!("{}: {} heap block(s) were released while still holding {} (first: a block of {} bytes)", op, hits, what, size));
+        }
+    }
+    // (The payload key that key_decrypt recovers passes through a plain byte vector -- NoiseHandshake.message -- before it is
+    // put into a PayloadKey; that transient is released unwiped on the unchanged tree. It is not one of the containers the
+    // property quantifies over and is deliberately not searched for here; see DESIGN.md section 8.)
+    rep.extra("released_blocks_searched_for", json!(4));
+}
+
 fn cli_exit_scan(rep: &Report) {
     use crate::fx::Party;
     use crate::proc::{self, Cmd, Scratch};
@@ -515,6 +574,13 @@ fn cli_exit_scan(rep: &Report) {
         ("encrypt-unknown-recipient", vec!["encrypt", "plain.bin", "-t", "nobody", "-f", "alice", "-k", "kr.txt", "-o", "out.bin", "--env-pass"], "alicepw", false),
         ("encrypt-missing-input", vec!["encrypt", "nosuch.bin", "-t", "bob", "-f", "alice", "-k", "kr.txt", "-o", "out.bin", "--env-pass"], "alicepw", false),
         ("decrypt-password-file-given", vec!["decrypt", "plain.bin", "-t", "bob", "-k", "kr.txt", "-o", "out.bin", "--env-pass"], "bobpw", false),
+        // a print fails AFTER the key was unlocked: stdout is /dev/full or a pipe without a reader for the commands that print
+        // a key, the reader of stderr is gone from the start for the commands that print progress
+        ("extract-pub-stdout-dev-full", vec!["key", "extract-pub", "LOCKED-ALICE", "--env-pass"], "alicepw", false),
+        ("change-pass-stdout-dev-full", vec!["key", "change-pass", "LOCKED-ALICE", "--env-pass"], "alicepw", false),
+        ("extract-pub-stdout-closed-pipe", vec!["key", "extract-pub", "LOCKED-ALICE", "--env-pass"], "alicepw", true),
+        ("encrypt-stderr-reader-gone", vec!["encrypt", "plain.bin", "-t", "bob", "-f", "alice", "-k", "kr.txt", "-o", "out.bin", "--env-pass"], "alicepw", false),
+        ("decrypt-stderr-reader-gone", vec!["decrypt", "ct.ktl", "-t", "bob", "-k", "kr.txt", "-o", "out.bin", "--env-pass"], "bobpw", false),
         // the reader of stderr (a log collector) goes away after the progress text: printing the final status fails
         // (the input comes on stdin and is held back until that reader has left, so the order of events is fixed)
         ("encrypt-stderr-reader-leaves", vec!["encrypt", "-t", "bob", "-f", "alice", "-k", "kr.txt", "-o", "out.bin", "--env-pass"], "alicepw", false),
@@ -533,8 +599,16 @@ fn cli_exit_scan(rep: &Report) {
             sc.write("ct.ktl", &f);
             sc.write("bad.ktl", &bad);
             let log = sc.path("scan.log");
-            let mut c = Cmd::new(args).env("KESTREL_PASSWORD", pw).env("LD_PRELOAD", shim).env("KV_SCAN_HEX", &format!("{},{}", hx(&alice.sk), hx(&bob.sk))).env("KV_SCAN_LOG", log.to_str().unwrap());
+            let args: Vec<&str> = args.iter().map(|a| if *a == "LOCKED-ALICE" { alice.locked.as_str() } else { *a }).collect();
+            let args = &args;
+            let mut c = Cmd::new(args).env("KESTREL_PASSWORD", pw).env("KESTREL_NEW_PASSWORD", "another").env("LD_PRELOAD", shim).env("KV_SCAN_HEX", &format!("{},{}", hx(&alice.sk), hx(&bob.sk))).env("KV_SCAN_LOG", log.to_str().unwrap());
             c.stdout_closed_pipe = *closed;
+            if name.ends_with("stdout-dev-full") {
+                c.stdout_file = Some("/dev/full".into());
+            }
+            if name.ends_with("stderr-reader-gone") {
+                c.stderr_reader_leaves_after = Some(0);
+            }
             if name.ends_with("stderr-reader-leaves") {
                 c.stderr_reader_leaves_after = Some(13); // "Encrypting..." / "Decrypting..."
                 c = c.stdin(if name.starts_with("encrypt") { &p } else { &f });
@@ -684,6 +758,7 @@ pub fn run(rep: &'static Report) {
         crate::report::machinery(&format!("vacuous run: {} drops, {} release events", d, e));
     }
     operations_leave_nothing(rep);
+    operations_release_nothing(rep);
     cli_exit_scan(rep);
     under_failing_mlock(rep);
     // Supplementary, NOT exhaustive (sampling, labelled as such): the containers contain no synchronisation operation, so there
